@@ -65,4 +65,5 @@ SitesC11 == DefectSites \cup {"mut", "sub", "xC", "xD", "xV", "xG", "xJ", "xK", 
                               "th.Q", "th.A", "th.A.i", "th.I", "th.In", "th.U", "th.C"}
 SitesEverything == ValidSites \cup DefectSites
 SitesAppend == {"xC", "xD", "xV", "xG", "xJ", "xK", "xIn4", "xCu2", "th.C", "d.impl", "d.dup", "d.nil"}
+SitesOrders == {"xC", "xD", "xV", "xG", "xJ", "xK", "xIn4", "xCu2"}
 =============================================================================
